@@ -210,25 +210,27 @@ impl TmpNodes {
     pub uninterp spec fn tv(&self) -> TmpV;
     /// ghost: ids handed out by the id generator while this staging area was in scope (rule R12)
     pub uninterp spec fn allocated(&self) -> Set<u32>;
+    /// ghost: the id remapping applied when the puts are written back (TmpNodes::remap)
+    pub uninterp spec fn rm(&self) -> Map<u32, u32>;
     #[verifier::external_body]
     pub fn new() -> (r: heed::Result<TmpNodes>)
-        ensures r matches Ok(t) ==> t.tv().puts == IMap::<u32, TNode>::empty() && t.tv().deleted == Set::<u32>::empty(), r matches Err(e) ==> e is Io || e is Heed
+        ensures r matches Ok(t) ==> t.tv().puts == IMap::<u32, TNode>::empty() && t.tv().deleted == Set::<u32>::empty() && t.rm() == Map::<u32, u32>::empty() && t.allocated() == Set::<u32>::empty(), r matches Err(e) ==> e is Io || e is Heed
     { unimplemented!() }
     #[verifier::external_body]
     pub fn new_in(path: &PathBuf) -> (r: heed::Result<TmpNodes>)
-        ensures r matches Ok(t) ==> t.tv().puts == IMap::<u32, TNode>::empty() && t.tv().deleted == Set::<u32>::empty(), r matches Err(e) ==> e is Io || e is Heed
+        ensures r matches Ok(t) ==> t.tv().puts == IMap::<u32, TNode>::empty() && t.tv().deleted == Set::<u32>::empty() && t.rm() == Map::<u32, u32>::empty() && t.allocated() == Set::<u32>::empty(), r matches Err(e) ==> e is Io || e is Heed
     { unimplemented!() }
     /// the real `put` asserts item != ItemId::MAX
     #[verifier::external_body]
     pub fn put(&mut self, item: ItemId, data: &Node) -> (r: heed::Result<()>)
         requires item != u32::MAX, !(data is Leaf)
         ensures
-            final(self).allocated() == old(self).allocated(),
+            final(self).allocated() == old(self).allocated(), final(self).rm() == old(self).rm(),
             r is Ok ==> final(self).tv() == (TmpV { puts: old(self).tv().puts.insert(item, tnode_of(*data)), deleted: old(self).tv().deleted }),
             r matches Err(e) ==> (e is Io || e is Heed) && final(self).tv() == old(self).tv(),
     { unimplemented!() }
     #[verifier::external_body]
     pub fn remove(&mut self, item: ItemId)
-        ensures final(self).allocated() == old(self).allocated(), final(self).tv() == (TmpV { puts: old(self).tv().puts, deleted: old(self).tv().deleted.insert(item) })
+        ensures final(self).allocated() == old(self).allocated(), final(self).rm() == old(self).rm(), final(self).tv() == (TmpV { puts: old(self).tv().puts, deleted: old(self).tv().deleted.insert(item) })
     { unimplemented!() }
 }
